@@ -7,3 +7,7 @@ open HmcVerif.C11
 #print axioms next_valid_run_succeeds
 #print axioms stepAt_frame
 #print axioms no_consent_no_change_any_path
+#print axioms copies_write_nothing
+#print axioms closed_file_is_final
+#print axioms content_is_appended
+#print axioms closed_nothing_pending
